@@ -55,7 +55,7 @@ def run(ctx):
         full = lambda n: bytes(rnd.randrange(256) for _ in range(n))
         pars = [B2.par(b, salt=full(sl)), B2.par(b, pers=full(sl)), B2.par(b, salt=full(sl), pers=full(sl), outlen=mx - 3),
                 B2.par(b, fanout=0), B2.par(b, fanout=255, depth=255), B2.par(b, depth=2, leafl=0xffffffff), B2.par(b, leafl=0x12345678, noffset=1),
-                B2.par(b, noffset=(1 << (64 if b else 48)) - 1), B2.par(b, ndepth=255, inner=mx), B2.par(b, ndepth=1, inner=1, keylen=mx), B2.par(b, keylen=1, outlen=5),
+                B2.par(b, noffset=(1 << (64 if b else 48)) - 1), B2.par(b, outlen=5, inner=mx), B2.par(b, outlen=16, inner=17, depth=2, fanout=2), B2.par(b, noffset=1 << 32), B2.par(b, noffset=(1 << 32) - 1), B2.par(b, ndepth=255, inner=mx), B2.par(b, ndepth=1, inner=1, keylen=mx), B2.par(b, keylen=1, outlen=5),
                 B2.par(b, fanout=2, depth=3, leafl=4096, noffset=5, ndepth=2, inner=mx // 2, salt=full(sl), pers=full(sl), keylen=7, outlen=mx // 2 + 1)]
         for i, p in enumerate(pars):
             for n in ((0, 3, Bb + 9) if big else (3, Bb + 9)[i % 2:][:1]):
